@@ -144,9 +144,8 @@ func structuredPointInput(t *rapid.T, gi *GroupInfo, valid []byte) ([]byte, stri
 		}
 		return fieldEdit(p, size/32, 32, 0)
 	case gi.Family == "qr512":
-		q := gi.G.(interface{ Order() *big.Int }).Order()
-		P := new(big.Int).Add(new(big.Int).Lsh(q, 1), big1)
-		kind := rapid.SampledFrom([]string{"zero", "one", "P-1", "P", "P+1", "nonresidue", "max"}).Draw(t, "skind")
+		P := gi.Modulus
+		kind := rapid.SampledFrom([]string{"zero", "one", "P-1", "P", "P+1", "nonresidue", "max", "small-square", "small-square"}).Draw(t, "skind")
 		v := new(big.Int)
 		switch kind {
 		case "one":
@@ -160,6 +159,11 @@ func structuredPointInput(t *rapid.T, gi *GroupInfo, valid []byte) ([]byte, stri
 		case "nonresidue":
 			// -r is a non-residue when r is a residue (P = 3 mod 4)
 			v.Sub(P, new(big.Int).SetBytes(valid))
+		case "small-square":
+			// k^2: always a quadratic residue, but in the order-Q subgroup only by accident when the
+			// cofactor exceeds 2
+			k := int64(rapid.IntRange(2, 60).Draw(t, "k"))
+			v.SetInt64(k * k)
 		case "max":
 			v.Sub(pow2(8*size), big1)
 		}
@@ -307,12 +311,12 @@ func c04Member(gi *GroupInfo, reenc []byte) (member bool, why string, ok bool) {
 		return modelBLSG2.OnCurve(p) && modelBLSG2.InSubgroup(p), "not in the prime-order subgroup", true
 	case gi.Family == "qr512":
 		q := gi.Order
-		P := new(big.Int).Add(new(big.Int).Lsh(q, 1), big1)
+		P := gi.Modulus
 		v := new(big.Int).SetBytes(reenc)
 		if v.Sign() <= 0 || v.Cmp(P) >= 0 {
 			return false, "not in [1,P)", true
 		}
-		return new(big.Int).Exp(v, q, P).Cmp(big1) == 0, "not a quadratic residue", true
+		return new(big.Int).Exp(v, q, P).Cmp(big1) == 0, "not in the order-Q subgroup (v^Q != 1)", true
 	}
 	return true, "", false
 }
